@@ -34,6 +34,28 @@ Proof. reflexivity. Qed.
 Lemma K_calc_rec_shg d x : k_calc_rec_shg d x = x.
 Proof. reflexivity. Qed.
 
+Lemma K_calc_params_idx0 x : k_calc_params_idx0 x = x.
+Proof. reflexivity. Qed.
+Lemma K_calc_params d x : k_calc_params d x = x.
+Proof. reflexivity. Qed.
+Lemma K_multi_chg_fwd x : k_multi_chg_fwd x = x.
+Proof. reflexivity. Qed.
+Lemma K_multi_chg_loops : k_multi_chg_loops = 1.
+Proof. reflexivity. Qed.
+Lemma K_eval_ns_idx0 x : k_eval_ns_idx0 x = x.
+Proof. reflexivity. Qed.
+Lemma K_eval_ns d x : k_eval_ns d x = x.
+Proof. reflexivity. Qed.
+(* evaluate: the four `if`s are the None default, two tracing blocks and `len(grads) > 1`;
+   none guards the two calculate calls, which occur once each, weights first *)
+Lemma K_eval_ifs : k_eval_ifs = 4.
+Proof. reflexivity. Qed.
+Lemma K_eval_ncalc : k_eval_ncalc_a = 1 /\ k_eval_ncalc_f = 1 /\ k_eval_calc_order = true.
+Proof. repeat split. Qed.
+(* no conditional inside get_ratio / the two calculate methods (no threshold, no memo) *)
+Lemma K_no_ifs : k_ratio_ifs = 0 /\ k_calc_ifs = 0 /\ k_fcalc_ifs = 0.
+Proof. repeat split. Qed.
+
 Lemma py_get_of_nth {A} (l : list A) k x : nth_error l k = Some x -> py_get l (Z.of_nat k) = Ok x.
 Proof.
   intros H. assert (L : (k < length l)%nat) by (apply nth_error_Some; congruence).
@@ -78,10 +100,10 @@ Section Svc.
     pose proof (K_rec_shg_idx0 (Z.of_nat g)) as E3. congruence.
   Qed.
 
-  Lemma ycol_of_create (to_rec : Z -> Z -> Z -> Rec) (yc : Z -> Z -> Rec -> list T) J G g :
+  Lemma ycol_of_create (to_rec : Z -> Z -> Z -> Rec) (yc : Z -> Z -> Rec -> Z * Z -> list T) J G g sl :
     (g < G)%nat ->
-    ycol_of yc (create_recarrays to_rec J G) J g
-    = Ok (map (fun j => yc (Z.of_nat j) (Z.of_nat g) (to_rec (Z.of_nat j) (Z.of_nat g) (Z.of_nat g)))
+    ycol_of yc (create_recarrays to_rec J G) J g sl
+    = Ok (map (fun j => yc (Z.of_nat j) (Z.of_nat g) (to_rec (Z.of_nat j) (Z.of_nat g) (Z.of_nat g)) sl)
               (seq 0 J)).
   Proof.
     intros Hg. unfold ycol_of. apply mapM_ok_ext. intros j Hj. apply in_seq in Hj.
@@ -94,32 +116,56 @@ Section Svc.
     rewrite (py_get_of_nth _ g _ H2). reflexivity.
   Qed.
 
+  (* ---- the state after change_shg_mgr: which fields are new, which are old *)
+  Lemma svc_change_W J G (old : svc_state (T:=T) (Rec:=Rec)) cfg :
+    st_W (svc_change_to J G old cfg) = fst cfg.
+  Proof. reflexivity. Qed.
+  Lemma svc_change_recs J G (old : svc_state (T:=T) (Rec:=Rec)) cfg :
+    st_recs (svc_change_to J G old cfg) = create_recarrays (snd cfg) J G.
+  Proof. reflexivity. Qed.
+  (* the stored table is NOT touched: get_weights after change_shg_mgr and before the next
+     calculate still returns the table of the old configuration *)
+  Theorem svc_change_keeps_table J G (old : svc_state (T:=T) (Rec:=Rec)) cfg :
+    svc_get_weights (svc_change_to J G old cfg) = svc_get_weights old.
+  Proof. reflexivity. Qed.
+
   Lemma svc_after_last J G (cfg0 : svc_cfg (T:=T) (Rec:=Rec)) changes cfg :
-    svc_after J G cfg0 (changes ++ [cfg]) = svc_make J G cfg.
+    svc_after J G cfg0 (changes ++ [cfg]) = svc_change_to J G (svc_after J G cfg0 changes) cfg.
   Proof. unfold svc_after. rewrite fold_left_app. reflexivity. Qed.
 
-  Lemma svc_calculate_make J (cfg : svc_cfg (T:=T) (Rec:=Rec)) (yc : Z -> Z -> Rec -> list T) :
-    svc_calculate N J (svc_make J (length (fst cfg)) cfg) yc = a_jk_calc N J (svc_groups J cfg yc).
+  (* calculate reads only the two re-created fields *)
+  Lemma svc_calculate_fields J (st : svc_state (T:=T) (Rec:=Rec)) (cfg : svc_cfg (T:=T) (Rec:=Rec))
+        (yc : Z -> Z -> Rec -> Z * Z -> list T) :
+    st_W st = fst cfg -> st_recs st = create_recarrays (snd cfg) J (length (fst cfg)) ->
+    svc_calculate N J st yc = a_jk_calc N J (svc_groups J cfg yc).
   Proof.
-    unfold svc_calculate, svc_make, svc_groups. cbn [fst snd].
+    intros HW HR. unfold svc_calculate, svc_groups. rewrite HW, HR.
     rewrite (mapM_ok_ext _
-      (fun g => map (fun j => yc (Z.of_nat j) (Z.of_nat g) (snd cfg (Z.of_nat j) (Z.of_nat g) (Z.of_nat g)))
-                    (seq 0 J))).
+      (fun gs => map (fun j => yc (Z.of_nat j) (Z.of_nat (fst gs))
+                                  (snd cfg (Z.of_nat j) (Z.of_nat (fst gs)) (Z.of_nat (fst gs))) (snd gs))
+                     (seq 0 J))).
     - reflexivity.
-    - intros g Hg. apply in_seq in Hg. apply ycol_of_create. lia.
+    - intros [g sl] Hg. apply in_combine_l in Hg. apply in_seq in Hg. cbn [fst snd].
+      apply ycol_of_create. lia.
   Qed.
 
-  (* after change_shg_mgr to cfg — whatever the service was built for and changed to
-     before — calculate gives the table of a fresh service for cfg, every cell from its
-     own dataset's and group's record array *)
+  (* after change_shg_mgr to cfg — whatever the service was built for, changed to and had
+     calculated before — calculate gives the table of a fresh service for cfg, every cell
+     from its own dataset's and group's record array and its own slice of the parameters *)
   Theorem svc_history_independent J (cfg0 : svc_cfg (T:=T) (Rec:=Rec)) changes cfg
-      (yc : Z -> Z -> Rec -> list T) :
+      (yc : Z -> Z -> Rec -> Z * Z -> list T) :
     svc_calculate N J (svc_after J (length (fst cfg)) cfg0 (changes ++ [cfg])) yc
     = a_jk_calc N J (svc_groups J cfg yc).
-  Proof. rewrite svc_after_last. apply svc_calculate_make. Qed.
+  Proof.
+    rewrite svc_after_last. apply svc_calculate_fields; [apply svc_change_W|apply svc_change_recs].
+  Qed.
+
+  Theorem svc_fresh J (cfg : svc_cfg (T:=T) (Rec:=Rec)) (yc : Z -> Z -> Rec -> Z * Z -> list T) :
+    svc_calculate N J (svc_init J (length (fst cfg)) cfg) yc = a_jk_calc N J (svc_groups J cfg yc).
+  Proof. apply svc_calculate_fields; reflexivity. Qed.
 
   Theorem multi_eval_svc_fresh opa ns J (cfg0 : svc_cfg (T:=T) (Rec:=Rec)) changes cfg
-      (yc : Z -> Z -> Rec -> list T) ds :
+      (yc : Z -> Z -> Rec -> Z * Z -> list T) ds :
     multi_eval_svc N opa ns J (svc_after J (length (fst cfg)) cfg0 (changes ++ [cfg])) yc ds
     = multi_eval N opa ns J (svc_groups J cfg yc) ds.
   Proof.
@@ -127,15 +173,14 @@ Section Svc.
   Qed.
 End Svc.
 
-(* end to end, real-number reading: the value returned by the long-lived objects after any
-   history of change_shg_mgr calls is the manual's formula on the current configuration *)
+(* end to end, real-number reading *)
 Section SvcR.
   Variable erfR : R -> R.
   Notation Nm := (RNum erfR).
   Local Open Scope R_scope.
 
   Theorem multi_eval_svc_manual {Rec : Type} opa ns J
-      (cfg0 : svc_cfg (T:=R) (Rec:=Rec)) changes cfg (yc : Z -> Z -> Rec -> list R) ds v :
+      (cfg0 : svc_cfg (T:=R) (Rec:=Rec)) changes cfg (yc : Z -> Z -> Rec -> Z * Z -> list R) ds v :
     multi_eval_svc Nm opa ns J (svc_after J (length (fst cfg)) cfg0 (changes ++ [cfg])) yc ds = Ok v ->
     exists a Rs,
       a_jk_calc Nm J (svc_groups J cfg yc) = Ok a /\ length ds = J
@@ -143,4 +188,28 @@ Section SvcR.
       /\ Forall2 (ratio_of erfR a) ds Rs
       /\ v = Rsum (map (term opa ns) (combine (f_j Nm a) (combine ds Rs))).
   Proof. rewrite multi_eval_svc_fresh. apply multi_eval_additive. Qed.
+
+  (* the re-creation of the weight array in change_shg_mgr is NEEDED for the theorem above:
+     a change that re-creates only the record arrays (seeded defect C03-1) keeps computing
+     with the weights captured at construction *)
+  Definition svc_change_recs_only {Rec : Type} (J G : nat) (old : svc_state (T:=R) (Rec:=Rec))
+             (cfg : svc_cfg (T:=R) (Rec:=Rec)) : svc_state :=
+    set_recs old (create_recarrays (snd cfg) J G).
+
+  Theorem stale_weights_refuted :
+    exists (cfg0 cfg : svc_cfg (T:=R) (Rec:=unit)) (yc : Z -> Z -> unit -> Z * Z -> list R),
+      svc_calculate Nm 1 (svc_change_recs_only 1 1 (svc_init 1 1 cfg0) cfg) yc
+      <> a_jk_calc Nm 1 (svc_groups 1 cfg yc).
+  Proof.
+    exists ([[1]], fun _ _ _ => tt), ([[2]], fun _ _ _ => tt), (fun _ _ _ _ => [1]).
+    rewrite (svc_calculate_fields Nm 1 _ ([[1]], fun _ _ _ => tt)); [|reflexivity|reflexivity].
+    assert (G1 : svc_groups 1 (([[1]], fun _ _ _ => tt) : svc_cfg (T:=R) (Rec:=unit)) (fun _ _ _ _ => [1])
+                 = [([1], [[1]])]) by reflexivity.
+    assert (G2 : svc_groups 1 (([[2]], fun _ _ _ => tt) : svc_cfg (T:=R) (Rec:=unit)) (fun _ _ _ _ => [1])
+                 = [([2], [[1]])]) by reflexivity.
+    rewrite G1, G2.
+    rewrite (a_jk_calc_spec erfR 1 [([1], [[1]])]) by (repeat constructor).
+    rewrite (a_jk_calc_spec erfR 1 [([2], [[1]])]) by (repeat constructor).
+    unfold a_spec. cbn. intros H. inversion H. lra.
+  Qed.
 End SvcR.
